@@ -16,6 +16,7 @@ import (
 )
 
 type Config struct {
+	NoRaces      bool  // disable happens-before race detection in schedule harnesses
 	MaxSteps     int64 // per path
 	MaxDecisions int   // per path
 	MaxPaths     int   // per harness
@@ -262,6 +263,7 @@ type Interp struct {
 	pools   map[*value][]value
 	disk    interface{}
 	extra   map[string]interface{}
+	race    *raceState
 }
 
 func (i *Interp) global(g *ssa.Global) *value {
@@ -572,7 +574,7 @@ func (ex *explorer) runOne(solver *Solver, item workItem) {
 		res.Cut++
 	case "step-limit":
 		res.Incomplete = append(res.Incomplete, fmt.Sprintf("step limit (%d) reached (unwinding failure) at %s", ex.cfg.MaxSteps, i.where()))
-	case "violation", "panic", "deadlock", "decision-limit", "engine-error", "concretize-unknown":
+	case "violation", "panic", "deadlock", "race", "decision-limit", "engine-error", "concretize-unknown":
 	default:
 		res.Incomplete = append(res.Incomplete, "path ended: "+status)
 	}
